@@ -29,6 +29,39 @@ type PC struct {
 	fact   *Term
 	depth  int
 	cache  *Term
+	branch bool // the fact is a branch decision (not an assumption)
+}
+
+// pcHas: c is literally one of the (most recent) path facts.
+func pcHas(p *PC, c *Term) bool {
+	n := 0
+	for x := p; x != nil && n < 400; x = x.parent {
+		if x.fact == c {
+			return true
+		}
+		if x.fact.op == "and" {
+			for _, a := range x.fact.args {
+				if a == c {
+					return true
+				}
+			}
+		}
+		n++
+	}
+	return false
+}
+
+// pcBranchFree: no branch decision lies between p and its ancestor anc.
+func pcBranchFree(p, anc *PC) bool {
+	for x := p; x != nil && x != anc; x = x.parent {
+		if x.branch {
+			return false
+		}
+		if anc != nil && x.depth < anc.depth {
+			return false
+		}
+	}
+	return true
 }
 
 func (p *PC) add(c *Term) *PC {
@@ -132,6 +165,13 @@ func (s *State) assume(c *Term) {
 }
 
 func (s *State) kill() { s.dead = true }
+
+func (s *State) assumeBranch(c *Term) {
+	s.assume(c)
+	if s.pc != nil && s.pc.fact == c {
+		s.pc.branch = true
+	}
+}
 
 type Obligation struct {
 	Name  string
@@ -1531,10 +1571,19 @@ func (e *Engine) execBlock(fr *Frame, b *ssa.BasicBlock, st *State, rc *regionCt
 		case *ssa.If:
 			c := e.val(fr, x.Cond).term()
 			tb, fb := b.Succs[0], b.Succs[1]
+			// a branch whose outcome is literally among the path facts is not a decision
+			if pcHas(st.pc, c) {
+				e.edge(fr, rc, b, tb, st)
+				return
+			}
+			if pcHas(st.pc, Not(c)) {
+				e.edge(fr, rc, b, fb, st)
+				return
+			}
 			s1 := st.clone()
-			s1.assume(c)
+			s1.assumeBranch(c)
 			s2 := st
-			s2.assume(Not(c))
+			s2.assumeBranch(Not(c))
 			e.edge(fr, rc, b, tb, s1)
 			e.edge(fr, rc, b, fb, s2)
 			return
